@@ -4,6 +4,8 @@ C09 — creation is all-or-nothing at the destination path.
 -/
 import JubakoModel.Model.AtomicFs
 import JubakoModel.Lemmas.AtomicFs
+import JubakoModel.Model.BasicCreatorFs
+import JubakoModel.Lemmas.BasicCreatorFs
 
 namespace Jubako
 
@@ -56,6 +58,69 @@ theorem c09_error_return_clean {isTemp : FPath → Bool} {entry : FPath} {old : 
 theorem c09_prefix_disciplined (isTemp : FPath → Bool) (entry : FPath) (oldPaths : List FPath)
     (t : List FsOp) (k : Nat) (h : Discipline isTemp entry oldPaths t = true) :
     Discipline isTemp entry oldPaths (t.take k) = true := discipline_take isTemp entry oldPaths t k h
+
+/-! ### The runs of `BasicCreator` (Model/BasicCreatorFs.lean)
+
+`creationTrace m n w` is the file-system trace of a whole creation through the high-level creator
+in packaging `m`, with temporaries and final names `n` and **any** number of writes `w` at each
+stage.  The correspondence check records the real trace of every run with `strace` and requires it
+to be an instance of `creationTrace` (`isCreationInstance`: same creates / renames in the same
+order up to the names of the temporaries, every write going to the file being built). -/
+
+/-- **Every creation run is disciplined**, in every packaging, for every amount of data written at
+    every stage and every choice of fresh temporary names -/
+theorem c09_modes {isTemp : FPath → Bool} {oldPaths : List FPath} (m : ConcatMode) (n : FinNames)
+    (w : FinWrites) (hn : NamesOk isTemp oldPaths n) :
+    Discipline isTemp n.entry oldPaths (creationTrace m n w) = true :=
+  creationTrace_disciplined m n w hn
+
+/-- **Process death at any point of a creation run** (after any `k` file-system operations): the
+    destination holds what it held before, or the complete new file; and if it holds the new file,
+    every other file of the run (`.jbkc`, `.jbkd`) has been renamed and is complete. -/
+theorem c09_creation_crash {isTemp : FPath → Bool} {old : FSt} (m : ConcatMode) (n : FinNames)
+    (w : FinWrites) (hn : NamesOk isTemp (old.files.map (·.1)) n) (k : Nat) :
+    let t := creationTrace m n w
+    let fs := old.run (t.take k)
+    (fs.get n.entry = old.get n.entry ∨
+      ∃ src, (src, n.entry) ∈ renamesOf (t.take k) ∧ fs.get n.entry = some (allWritesTo src t)) ∧
+    (∀ src, (src, n.entry) ∈ renamesOf (t.take k) →
+      ∀ s' d', (s', d') ∈ renamesOf t → fs.get d' = some (allWritesTo s' t)) := by
+  have hd := creationTrace_disciplined m n w hn
+  exact ⟨atomic_final hd k n.entry hn.e, fun src h s' d' h' => (entry_last hd k src h s' d' h').2⟩
+
+/-- **I/O error at any point of a creation run** (the first `k` operations succeeded, then
+    `finalize` returns the error and the live temporaries are dropped): the destination holds what
+    it held before or the complete new file, and no temporary of the run remains. -/
+theorem c09_creation_error_return {isTemp : FPath → Bool} {old : FSt} (m : ConcatMode) (n : FinNames)
+    (w : FinWrites) (hn : NamesOk isTemp (old.files.map (·.1)) n) (k : Nat) :
+    let t := creationTrace m n w
+    let fs := old.run (errorTrace t k)
+    (fs.get n.entry = old.get n.entry ∨
+      ∃ src, (src, n.entry) ∈ renamesOf (t.take k) ∧ fs.get n.entry = some (allWritesTo src t)) ∧
+    (∀ p, isTemp p = true → p ∈ createdOf (t.take k) → fs.get p = none) := by
+  have hd := creationTrace_disciplined m n w hn
+  intro t fs
+  constructor
+  · have h1 : fs.get n.entry = (old.run (t.take k)).get n.entry := errorTrace_final old t k n.entry hn.e hd
+    rw [h1]
+    exact atomic_final hd k n.entry hn.e
+  · intro p hp hc
+    obtain ⟨dsf, hrun, hlive⟩ := errorTrace_disciplined t k hd
+    have hd' : Discipline isTemp n.entry (old.files.map (·.1)) (errorTrace t k) = true := by
+      rw [discipline_iff]; exact ⟨dsf, hrun⟩
+    apply no_stray_temps hd' dsf hrun hlive p hp
+    apply (created_of_create dsf hrun p ?_).1
+    simp only [createdOf, List.mem_filterMap] at hc
+    obtain ⟨op, hop, hop2⟩ := hc
+    cases op <;> simp at hop2
+    subst hop2
+    exact List.mem_append_left _ hop
+
+/-- non-vacuity: the names the harness uses satisfy the hypotheses; the three traces are distinct -/
+example : NamesOk exIsTemp [] (FinNames.ofEntry "out.jbk" ".tmpA" ".tmpB" ".tmpC") := by
+  constructor <;> simp [FinNames.ofEntry, exIsTemp, withExtension]
+example : (creationTrace .noConcat (FinNames.ofEntry "out.jbk" ".tmpA" ".tmpB" ".tmpC") ⟨[1, 2], [3], [], [4], [5], []⟩).length = 11 := by
+  decide
 
 /-- non-vacuity: the creator's shape of run is disciplined; entry-point first is rejected -/
 example : Discipline exIsTemp "out.jbk" [] exTrace = true := exTrace_disciplined
